@@ -244,8 +244,6 @@ def replay(ck):
     if 'script' not in r or 'structures' not in r:
         print('replay: %s names a broken obligation or a bare probe, not a (script, data) case' % ck.replay_path)
         if 'script' in r:
-            import eng
-            from vtlengine import run  # noqa: F401
             print('script :', r['script'])
         return
     env = {}
@@ -290,7 +288,7 @@ def main(ck):
     pr = ck.proof('C07')
     q = ck.quick()
     g = GV.VGen(ck.rng)
-    n = int(os.environ.get("VERIF_N", 0)) or (96 if q else 1600)
+    n = int(os.environ.get("VERIF_N", 0)) or (96 if q else 800)
     kinds = (os.environ.get('VERIF_KINDS') or 'check,check,dp,dp,ch,ch,hier,hier,hier').split(',')
     cases = [g.case(kinds[i % len(kinds)]) for i in range(n)]
     rmc = rm_cases()
@@ -401,6 +399,27 @@ def main(ck):
         if key is None:
             key = generic_key(c, v, d, e)
         groups[key].append((len(c['vtl']) + sum(len(x['rows']) for x in c['env'].values()) * 20, c, v, d, e, a))
+    # ---- second independent oracle: the upstream test corpus of hierarchical rulesets (model vs stored reference outputs)
+    try:
+        import eng  # noqa: F401  (the repository's own create_ast)
+        from sem import valid_corpus as VC
+        ccases, cskipped = VC.corpus_cases(vlib.REPO)
+        cans = ck.driver('Valid', [GV.request(c) for c in ccases]) if ccases else []
+        c_ok = 0
+        for c, a in zip(ccases, cans):
+            v, d = R.compare(c, a, ref_as_engine(c['ref']))
+            hist['corpus-model-vs-reference:' + v.split(':')[0]] += 1
+            if v == 'agree':
+                c_ok += 1
+                ck.count(('corpus', c['code']))
+            else:
+                ck.unproved('model-vs-upstream-corpus:' + c['code'], 'the model does not reproduce the stored reference output of %s: %s %s'
+                            % (c['code'], v, str(d)[:300]))
+        ck.note('upstream_corpus', {'cases': len(ccases), 'reproduced_by_model': c_ok, 'skipped': cskipped})
+    except vlib.DriverError:
+        raise
+    except Exception as ex:  # noqa: BLE001
+        ck.note('upstream_corpus', {'error': repr(ex)[:300]})
     ck.note('outcomes', dict(hist))
     ck.note('distribution', {k: dict(v) for k, v in dist.items()})
     ck.note('reference_manual_examples_reproduced_by_model', rm_ok)
@@ -425,7 +444,7 @@ def main(ck):
     except Exception as ex:  # noqa: BLE001
         ck.note('dataset_priority_probe_error', repr(ex)[:200])
     compared = hist['agree']
-    if compared < (40 if q else 600):
+    if compared < min(40 if q else 600, n // 3):
         ck.unproved('correspondence:C07', 'only %d of %d cases could be compared: %s' % (compared, len(cases), dict(hist)))
     if not pr['ok'] and not ck.viol:
         ck.unproved('Props.C07:' + ','.join(pr['failed'] or pr['forbidden'] or pr['bad_axioms']), 'Lean build/audit failed: ' + pr['log'][-400:])
